@@ -253,6 +253,25 @@ def run_case(inp):
             if not (np.abs(proj * sign[None, :] - P).max() <= 2e-3 * np.abs(P).max()):
                 V("projections", f"get_transform() differs from the exact projections by "
                                  f"{np.abs(proj * sign[None, :] - P).max():.3g} (chunks {chunks})")
+            # projections of a selection of images: row j belongs to image sel[j], in the requested order (unsorted,
+            # cyclic, repeated and single-image selections)
+            rs = np.random.default_rng(inp["seed"] + 17)
+            sels = [[int(x) for x in rs.permutation(n)[: min(n, 4)]], [int(x) for x in np.roll(np.arange(min(n, 5)), 2)],
+                    [n - 1], [0, n - 1, 0] if n > 1 else [0]]
+            for sel in sels:
+                try:
+                    with warnings.catch_warnings():
+                        warnings.simplefilter("ignore")
+                        with dask.config.set(scheduler=inp.get("scheduler", "synchronous")):
+                            got = np.asarray(clf.get_transform(sel))
+                except Exception as e:  # noqa: BLE001
+                    V("no-error", f"get_transform({sel}) raised {type(e).__name__}: {str(e)[:100]}")
+                    continue
+                if got.shape != (len(sel), proj.shape[1]) or \
+                        not (np.abs(got - proj[sel]).max() <= 1e-4 * (1 + np.abs(proj).max())):
+                    V("projections", f"get_transform({sel}) is not get_transform()[{sel}]: rows attributed to other images "
+                                     f"(chunks {chunks})")
+                    break
             bases = clf.get_bases()
             if tuple(bases.shape) != (k,) + shape or np.abs(bases.reshape(k, -1) - comp).max() > 0:
                 V("bases", "get_bases() is not the components reshaped to images")
